@@ -27,7 +27,7 @@ Theorem C04_rekey_ok : forall frepr w ci cf,
   let wsd := wsp (getS w (h_s h0)) in
   let src := wsd ++ [old] in
   let dst := wsd ++ [new] in
-  old <> new ->
+  old <> new -> is_null (c_data c) = false ->
   js <> [] ->
   (forall j, In j js -> (j < length (w_hs w))%nat /\ h_cell (getH w j) = Some ci /\ h_s (getH w j) = h_s h0) ->
   getCF w ci = src ++ [SPF] ->
@@ -49,7 +49,8 @@ Proof. exact rekey_ok. Qed.
 Print Assumptions C04_rekey_ok.
 
 (* rekey_conflict: destination a non-empty directory => DestinationExistsError and THE SAME TREE
-   (extensional equality of the whole file system: both jobs byte-identical), handles and cells untouched *)
+   (extensional equality of the whole file system: both jobs byte-identical), handles untouched, and the cell's
+   data is merged back from the restored file *)
 Theorem C04_rekey_conflict : forall frepr w ci cf,
   let c := getC w ci in
   let h0 := getH w (hd 0%nat (c_jobs c)) in
@@ -63,7 +64,10 @@ Theorem C04_rekey_conflict : forall frepr w ci cf,
   get (w_fs w) (wsd ++ [old]) = Some Dir -> get (w_fs w) wsd = Some Dir ->
   get (w_fs w) (wsd ++ [new]) = Some Dir -> has_children (w_fs w) (wsd ++ [new]) = true ->
   exists w', sp_save frepr false w ci = (w', inr (FExn EDestinationExists)) /\
-    fs_eq (w_fs w') (w_fs w) /\ w_hs w' = w_hs w /\ w_cs w' = w_cs w /\ w_ss w' = w_ss w.
+    fs_eq (w_fs w') (w_fs w) /\ w_hs w' = w_hs w /\ w_ss w' = w_ss w /\
+    (* the in-memory state point is rolled back too (fix 5e72814): merged back from the restored file *)
+    w_cs w' = set_nth ci (mkC (match c_json cf with Some v => snd (upd_root (c_data c) v) | None => c_data c end)
+                              (c_jobs c)) (w_cs w).
 Proof. exact rekey_conflict. Qed.
 Print Assumptions C04_rekey_conflict.
 
@@ -88,7 +92,8 @@ Theorem C04_move_ok : forall frepr w h sj w1 ci,
     (forall r, get (w_fs w') (dst ++ r) = get (w_fs w) (src ++ r)) /\
     (forall r, get (w_fs w') (src ++ r) = None) /\
     (forall q, under src q = false -> under dst q = false -> get (w_fs w') q = get (w_fs w) q) /\
-    getH w' h = mkH sj (calc_id frepr d) (Some d) None false.
+    getH w' h = mkH sj (calc_id frepr d) (Some d) None false /\
+    ~ In h (c_jobs (getC w' ci)).            (* fix d38783c: it has left the _jobs of its old state point object *)
 Proof. exact move_ok. Qed.
 Print Assumptions C04_move_ok.
 
